@@ -38,6 +38,12 @@ package refopts
 //@   ensures result == nil && len(v.pattern) > 0 && isInc(v.combiner) == parseBoolK(keyof(s)) ==> forall r string :: apply(v.rgb.topLevelGroup.filter, r) == ((old(v.rgb.topLevelGroup.filter) != nil && apply(old(v.rgb.topLevelGroup.filter), r)) || patApply(v, v.pattern, r))
 //@   ensures result == nil && len(v.pattern) > 0 && isInc(v.combiner) != parseBoolK(keyof(s)) ==> forall r string :: apply(v.rgb.topLevelGroup.filter, r) == ((old(v.rgb.topLevelGroup.filter) == nil || apply(old(v.rgb.topLevelGroup.filter), r)) && !patApply(v, v.pattern, r))
 //@   ensures result != nil ==> v.rgb.topLevelGroup.filter == old(v.rgb.topLevelGroup.filter)
+// an option value is rejected only because it is not a boolean (fixed-pattern
+// options), not a regular expression, or names an unknown refgroup
+//@   call 0 strconv.ParseBool as pb
+//@   call 0 RegexpFilter as rf
+//@   call 0 interpretFlexibly as fl
+//@   ensures result != nil ==> (pb_reached && pb1 != nil) || (rf_reached && rf1 != nil) || (fl_reached && fl1 != nil)
 
 // --refgroup G is --include @G.
 //@ func (*filterGroupValue).Set
